@@ -10,6 +10,7 @@ COMMON_ASSUME = [
     "the hand-written Lean model corresponds to /repo's code: checked on every run by the differential harness on generated inputs, not proved",
     "rustc/std (HashMap, BTreeMap order = byte order, binary_search_by, str::{lines,trim,parse}, from_utf8, write_all), watto 0.1.0, leb128 0.2.5 are mirrored in the model, not verified",
     "64-bit usize, little endian, cache buffers 8-byte aligned",
+    "static ties regenerated from /repo's source on every run by regex readers in ./check (cache record layout, operations on hash containers, body of uuid(), audit of stateful / hashing constructs against audit_baseline.json)",
 ]
 
 # id -> spec.  `theorems` are the proof obligations (fully qualified Lean names) in lean/PG/Props/<id>.lean.
@@ -56,9 +57,9 @@ prop("C08", "proof", "Lean 4 theorems over all traces and all lookup functions +
      "Canonical printed form = the well-formedness predicate TraceWF of PG/Props/C17.lean (top level has an exception or a frame, every cause has an exception, components free of their delimiters).",
      theorems=["PG.C08_depth", "PG.C08_exception", "PG.C08_frames", "PG.C08_agrees"], oracle=True)
 prop("C09", "proof", "Lean 4 theorem: every written file satisfies an independent format decoder + well-formedness predicate, and the self-test; the same predicate is run on the crate's bytes",
-     "Kernel-checked, for every record list in the representable domain whose tables fit the u32 counters: the bytes of the cache writer decode with Format.decode — a decoder written in Lean from the documented format only (PG/Spec/Format.lean, sharing no code with the reader model) — into a file satisfying Format.WF: correct magic, version and counts; class entries strictly sorted by obfuscated name whose member and by-params ranges tile their sections exactly, in class order; members sorted by name within a class, by-params entries by (name, params); 8-byte aligned sections with zero padding; a string section of exactly the declared length that ends the file, in which every referenced offset is a LEB128-length-prefixed valid UTF-8 string or, where the format allows absence, the sentinel; and the model of ProguardCache::test() accepts the parsed file. On every run the crate's bytes are compared with the model's, the same Format.check is evaluated on the bytes the crate actually wrote (FMT), and test() is called on them.",
+     "Kernel-checked, for every record list in the representable domain whose tables fit the u32 counters: the bytes of the cache writer decode with Format.decode — a decoder written in Lean from the documented format only (PG/Spec/Format.lean, sharing no code with the reader model) — into a file satisfying Format.WF: correct magic, version and counts; class entries strictly sorted by obfuscated name whose member and by-params ranges tile their sections exactly, in class order; members sorted by name within a class, by-params entries by (name, params); 8-byte aligned sections with zero padding; a string section of exactly the declared length that ends the file, in which every referenced offset is a LEB128-length-prefixed valid UTF-8 string or, where the format allows absence, the sentinel; and the model of ProguardCache::test() accepts the parsed file, and the Display view of the cache (src/cache/debug.rs, whose name reads are unwrap()ed) is total on it. On every run the crate's bytes are compared with the model's, the same Format.check is evaluated on the bytes the crate actually wrote (FMT), and test() is called on them.",
      "Model hand-written; tie is differential. ReprR/Small as in C02.",
-     theorems=["PG.C09_wf", "PG.C09_check", "PG.C09_selftest"], needs_layout=True, fmt=True)
+     theorems=["PG.C09_wf", "PG.C09_check", "PG.C09_selftest", "PG.C09_display_total"], needs_layout=True, fmt=True)
 prop("C10", "proof", "Lean 4 theorems (layout frozen against the current source, reader compatibility on every buffer) + cross-release differential run",
      "Kernel-checked: (1) layout_frozen — re-checked on every run against PG/Generated/Layout.lean, which is regenerated from /repo/src/cache/raw.rs: while the source declares format version 1 its magic, the names/types/order of the Header, Class and Member fields and the Class sentinels are exactly those of the pinned release, so a layout or sentinel change without a version bump breaks a proof obligation; (2) C10_reader_compat — for every buffer and every line-based frame query, whenever the frozen model of the 5.5.0 reader answers, the current reader model gives the identical answer (all other primitive queries are the same model functions); C10_no_fault — the 5.5.0 reader's unchecked arithmetic cannot fault on buffers of the shape either release writes from mappings with line numbers < 2^32; C10_version_gate — any other version is rejected with the wrong-version error. Both reader models are tied to their crates (vendored 5.5.0 snapshot and current tree) on files written by both writers, and both crates cross-read both writers' files and are compared query for query on every run.",
      "The pinned *writer* is not modelled (repairs F1/F7 changed what the writer emits for some mappings); that both writers' files are read identically by both readers is established by the cross-release differential run, not proved. remap_stacktrace_typed is excluded from the comparison (repair F3 changed it independently of the file format).",
@@ -75,9 +76,9 @@ prop("C13", "proof", "Lean 4 theorems (writer output always parses; u32 counters
      "The model of the whole pipeline is total: every function terminates on every input (Lean accepts the definitions; C06 proves the record iterator's progress). Kernel-checked obligations behind the fallible steps: for every record list whatsoever (truncated line numbers, empty names, invalid lines dropped) whose tables fit the u32 counters, the writer's output is accepted by the parser; every stored field and counter fits u32 and the header sums are the section lengths; the mapper's line arithmetic stays below 2^64 for every query line (saturating); parse_frame's slice bounds are in range. C12 adds the reader-side obligations. Every protocol operation on the crate runs under catch_unwind with overflow checks on: hostile mapping bytes (numbers around 2^32 and 2^64, empty names, invalid UTF-8, token mutations, byte soups) x every query kind incl. extreme lines and multi-byte characters at slice boundaries; a panic, an error or a disagreement with the model is a violation.",
      "Small (counts < 2^32, string section < 2^32-1 bytes) is assumed: mapping files of several GiB are outside what the format can represent. Memory safety of unsafe casts is not modelled.",
      theorems=["PG.C13_write_parse_ok", "PG.C13_bytes_pipeline", "PG.C13_counters", "PG.C13_line_bounded", "PG.C13_frame_slice"])
-prop("C14", "other", "Lean 4 model as the single reference value + repeated/threaded/multi-process runs",
-     "Every written cache equals the Lean model's bytes; writes are repeated in-process, from 8 threads and in >= 8 fresh processes (fresh hash seeds) and compared; length equals the length implied by the header.",
-     "Partial by nature: schedules and hash seeds are runtime behaviour; the model supplies the unique reference value.", oracle=True, theorems=["PG.C14_length", "PG.C14_header", "PG.C14_function"],
+prop("C14", "other", "Lean 4 model as the single reference value + theorem (re-checked against a list regenerated from the source on every run) that hash-ordered containers are only used through order-free operations + repeated/threaded/multi-process runs",
+     "Every written cache equals the Lean model's bytes; writes are repeated in-process, from 8 threads and in >= 8 fresh processes (fresh hash seeds), after failed writes and from reused buffers, and compared; length equals the length implied by the header (theorem). Kernel-checked: the operations the current source applies to its HashMap/HashSet values (extracted into PG/Generated/HashOps.lean on every run) are all order-free (insert, contains, get, entry, clear, …; no iteration), and under such operations any two internal orders give the same answers and permutation-equivalent states — so a per-process hash seed cannot reach the output. A static audit re-establishes on every run that the code behind the writer has no hidden state (statics, thread-locals, cells, atomics, locks), no sources of nondeterminism and no hand-rolled hashing.",
+     "Partial by nature: schedules, allocation addresses and hash seeds are runtime behaviour; the model supplies the unique reference value, the theorems show why the seed is unobservable, the runs observe it.", oracle=True, theorems=["PG.C14_length", "PG.C14_header", "PG.C14_function", "PG.C14_hash_ops_order_free", "PG.C14_membership_order_indep", "PG.C14_lookup_order_indep"],
      explanation="Determinism across processes/threads is runtime behaviour no Lean model exhibits; the check ties every written file to the single value computed by the Lean model and repeats writes across threads and >= 8 processes.")
 prop("C15", "proof", "Lean 4 theorems over all deterministic sinks (arbitrary state machines) + differential correspondence",
      "Kernel-checked theorems for every sink (arbitrary state machine answering accept-k / interrupted / fail to each write call), every fuel and every record list: success => accepted bytes = canonical serialisation; always a prefix of it; a sink failure forces result = failed; any sink accepting >= 1 byte per call makes writing succeed. The write_all / chunk-sequence model is tied to the crate by position-based sink policies (outcome independent of how the writer chunks its calls) and by call-indexed scripts (short / fail / interrupted at every call index, chunk sizes 1..16) on the implementation.",
@@ -91,18 +92,18 @@ prop("C17", "proof", "Lean 4 round-trip theorems over all well-formed traces + d
      "Kernel-checked theorems: for every frame / throwable / trace in the property's domain (FrameWF, ThrowableWF, TraceWF: class without spaces resp. '(', method without dots and '(', file present without colon, message absent or non-empty without surrounding Unicode whitespace, no line feed, line < 2^64, top level has an exception or a frame, every cause has an exception) parse(print x) = x, indentation by four spaces or a tab is tolerated, and printing the parsed trace gives the same text. The Lean parse/print are tied to StackTrace/StackFrame/Throwable try_parse and Display by the differential run and by a round-trip oracle on the implementation.",
      "Hypotheses forced by the proof and not in the property text: class and method contain no '('; frames carry a file (Display prints a missing file as '<unknown>', which parses back as that string).",
      theorems=["PG.C17_frame", "PG.C17_frame_indented", "PG.C17_throwable", "PG.C17_trace", "PG.C17_reprint"], oracle=True)
-prop("C18", "other", "Lean 4 SHA-1/UUIDv5 reference with structural theorems + independent hashlib computation",
-     "The property is a defining equation, so restating it proves nothing. Lean supplies an executable SHA-1/UUIDv5 reference, kernel-checked structural theorems (definition unfolds to uuidV5(uuidV5(DNS,'guardsquare.com'), bytes); padding is whole 64-byte blocks; digest has 20 bytes; every identifier has 16 bytes with version nibble 5 and variant bits 10), and every run compares the crate's UUID with the Lean reference and with an independent hashlib computation on empty, corpus, LF/CRLF-twin and random inputs.",
+prop("C18", "other", "Lean 4 SHA-1/UUIDv5 reference with structural theorems + the body of uuid() translated from the source on every run (C18_source) + independent hashlib computation",
+     "The property is a defining equation, so restating it proves nothing. Lean supplies an executable SHA-1/UUIDv5 reference, kernel-checked structural theorems (definition unfolds to uuidV5(uuidV5(DNS,'guardsquare.com'), bytes); padding is whole 64-byte blocks; digest has 20 bytes; every identifier has 16 bytes with version nibble 5 and variant bits 10), the body of ProguardMapping::uuid is re-translated from src/mapping.rs on every run and C18_source proves it is exactly new_v5(new_v5(NAMESPACE_DNS, 'guardsquare.com'), the bytes given to new) — no memo, no normalisation; and every run compares the crate's UUID with the Lean reference and with an independent hashlib computation on empty, corpus, LF/CRLF-twin and random inputs, on sub-mappings (section) and clones after the parent was queried, and in one reused buffer.",
      "Partial: that the crate computes this function is established differentially, not proved.",
-     theorems=["PG.C18_definition", "PG.C18_pad", "PG.C18_sha1_length", "PG.C18_version_variant", "PG.C18_namespace", "PG.C18_empty"],
+     theorems=["PG.C18_definition", "PG.C18_pad", "PG.C18_sha1_length", "PG.C18_version_variant", "PG.C18_namespace", "PG.C18_empty", "PG.C18_source"],
      explanation="The specification is the definition of the function; Lean supplies an executable reference and structural theorems (listed as obligations), hashlib an independent second opinion; the tie to the crate is differential.")
 prop("C19", "proof", "Lean 4 theorems over all byte strings + differential correspondence",
      "Kernel-checked theorems for every byte string: has_line_info is true iff some method record in the stream carries a line mapping; class/method counts equal the numbers of class/method records; compiler, compiler_version and min_api are the values of the last corresponding headers (a later value-less or non-u32 header resets); is_valid is true iff among the first 50 items a class record is followed by a field or method record. The model's folds are tied to the crate's early-exit loops by the differential run (late evidence, repeated/malformed headers, 49/50/51 leading noise lines, corpus).",
      "The model computes the record list eagerly; that the crate's early-exit loops compute the same answers is what the differential run checks.",
      theorems=["PG.C19_line_info", "PG.C19_counts", "PG.C19_last_header", "PG.C19_valid"])
-prop("C20", "other", "compile-time Send+Sync assertions + concurrent differential run",
-     "The harness instantiates Send+Sync assertions for every public handle and result type (losing one breaks the build and is reported); query batches run on 2..16 threads against one shared mapper/cache must equal the sequential answers, which are tied to the Lean model.",
-     "Partial: auto traits and real interleavings are facts about Rust, not expressible in the model.", oracle=True, theorems=["PG.C20_order_indep", "PG.C20_frames_order_indep"],
+prop("C20", "other", "compile-time Send+Sync assertions + concurrent differential run + static audit (no interior mutability / statics / thread-locals) and hash-ops theorem re-checked against the source on every run",
+     "The harness instantiates Send+Sync assertions for every public handle and result type (losing one breaks the build and is reported); query batches run on 2..16 threads against one shared mapper/cache must equal the sequential answers, which are tied to the Lean model; every handle is built on its own thread and queried on another. On every run a static audit re-establishes that the code has no shared, thread-local or interior-mutable state, and C20_hash_ops_order_free that its hash maps are never iterated.",
+     "Partial: auto traits and real interleavings are facts about Rust, not expressible in the model.", oracle=True, theorems=["PG.C20_order_indep", "PG.C20_frames_order_indep", "PG.C20_hash_ops_order_free"],
      explanation="Send/Sync are Rust type-system facts and interleavings are runtime behaviour; checked by compile-time assertions and a randomised concurrent run against sequential answers tied to the Lean model.")
 
 # ---------------------------------------------------------------------------
